@@ -780,6 +780,93 @@ def herk_rule(rep, wd):
     return n
 
 
+# -----------------------------------------------------------------------------------------------------------------
+# B13.syrk: syrk(c_side, alpha, a, beta, c) for real elements: the c_side triangle of c := alpha a a^T + beta c, against
+#   dsyrk(uplo, trans, n, k, alpha, A', lda, beta, C', ldc):  C' := alpha G G^T + beta C',  G = A' ('N') or A'^T ('T'); a a^T is symmetric, so the output may be
+#   addressed as c or as c transposed (uplo then names the other triangle)
+SYRK_DRIVER = r"""
+#include <boost/multi/adaptors/blas/syrk.hpp>
+namespace multi = boost::multi;
+static inline auto mk0() { return multi::layout_t<0>{multi::monostate{}, multi::monostate{}, 0, 1}; }
+static inline auto mk1(long s0, long o0, long n0) { return multi::layout_t<1>{mk0(), s0, o0, n0}; }
+static inline auto mk2(long s0, long o0, long n0, long s1, long o1, long n1) { return multi::layout_t<2>{mk1(s1, o1, n1), s0, o0, n0}; }
+extern "C" void s_N(char fl, double* ab, long a0, long a1, long Nn, long K, double* cb, long c0, long c1, double al, double be) {
+	multi::subarray<double, 2> a(mk2(a0, 0, Nn*a0, a1, 0, K*a1), ab), c(mk2(c0, 0, Nn*c0, c1, 0, Nn*c1), cb);
+	multi::blas::syrk(static_cast<multi::blas::filling>(fl), al, a, be, std::move(c));   // an lvalue view does not compile (the function returns its output by value)
+}
+extern "C" void s_enum(long* out) { out[0] = static_cast<char>(multi::blas::filling::lower); out[1] = static_cast<char>(multi::blas::filling::upper); }
+"""
+
+
+def syrk_rule(rep, wd):
+    src = os.path.join(wd, "syrk.cpp")
+    with open(src, "w") as fh:
+        fh.write(SYRK_DRIVER)
+    text = irval.emit_ir(src, src[:-4] + ".ll", defines=("-UNDEBUG", "-fno-vectorize", "-fno-slp-vectorize", "-mllvm", "-inline-threshold=1000000"))
+    funcs, structs = irval.parse_module(text)
+    ev = irval.Evaluator(funcs, structs)
+    ev.record_external = lambda c: c == "dsyrk_"
+    rep.units.add("syrk.cpp")
+    ev.run("s_enum", [A("out")], {"out": POS})
+    LOWER, UPPER = int(ev.stores[0].const_value()), int(ev.stores[8].const_value())
+    n = 0
+    esz = 8
+    lay = (("row-major", lambda rows, cols, p: (cols + A(p), P.const(1))), ("col-major", lambda rows, cols, p: (P.const(1), rows + A(p))))
+    for fname_, fl in (("lower", LOWER), ("upper", UPPER)):
+        for (an, af), (cn, cf) in itertools.product(lay, repeat=2):
+            Nn, K = 2 + A("nx"), 2 + A("kx")
+            a0, a1 = af(Nn, K, "ap")
+            c0, c1 = cf(Nn, Nn, "cp")
+            signs = {"ab": POS, "cb": POS, "nx": NONNEG, "kx": NONNEG, "ap": NONNEG, "cp": NONNEG}
+            args = [P.const(fl), A("ab"), a0, a1, Nn, K, A("cb"), c0, c1, irval.atom("float", "al"), irval.atom("float", "be")]
+            case = "%s a:%s c:%s" % (fname_, an, cn)
+            key = "B13.syrk[%s]" % case
+            n += 1
+            try:
+                ev.run("s_N", args, signs)
+                calls = [c for c in ev.extcalls if c[0] == "dsyrk_"]
+            except irval.AssertFires as e:
+                rep.ok(key, "B13.reject", dict(rejected=str(e)[:80]), nontrivial=False)
+                continue
+            except irval.Inconclusive as e:
+                rep.inconclusive(key, "B13.syrk", str(e))
+                continue
+            if len(calls) != 1:
+                rep.violated(key, "B13.syrk", "syrk (%s) neither calls dsyrk nor rejects the combination" % case, dict(case=case))
+                continue
+            vals, der = calls[0][1], calls[0][2]
+
+            def arg(i):
+                return der[i] if der[i] is not None else vals[i]
+            U, T, nn, kk, alp, pa, lda, bet, pc, ldc = (arg(i) for i in range(10))
+            U, T = int(U.const_value()), int(T.const_value())
+            i, j, l = A("i"), A("j"), A("l")
+            why = []
+            if nn != Nn or kk != K:
+                why.append("(n, k) = (%r, %r), expected (%r, %r)" % (nn, kk, Nn, K))
+            cadr = pc + (i + j * ldc) * esz
+            c_same = cadr == A("cb") + (i * c0 + j * c1) * esz
+            c_trans = cadr == A("cb") + (j * c0 + i * c1) * esz
+            if not (c_same or c_trans):
+                why.append("C'[i + j ldc] (ldc = %r) is neither c[i][j] nor c[j][i]" % ldc)
+            gadr = pa + ((i + l * lda) if T == 78 else (l + i * lda)) * esz
+            if gadr != A("ab") + (i * a0 + l * a1) * esz:
+                why.append("op(A')[i,l] does not address a[i][l]")
+            if not why:
+                upper = fl == UPPER
+                want_U = upper if c_same else (not upper)
+                if (U == 85) != want_U:
+                    why.append("uplo '%s' names the wrong triangle of C' (logical %s triangle, C' is %s)" % (chr(U), fname_, "c" if c_same else "c transposed"))
+                if alp != irval.atom("float", "al") or bet != irval.atom("float", "be"):
+                    why.append("alpha / beta are not forwarded")
+            if why:
+                rep.violated(key, "B13.syrk", "syrk (%s): the dsyrk call ('%s','%s',n=%r,k=%r,lda=%r,ldc=%r) does not compute the stated update: %s"
+                             % (case, chr(U), chr(T), nn, kk, lda, ldc, "; ".join(why)), dict(case=case, reasons=why))
+            else:
+                rep.ok(key, "B13.syrk", None)
+    return n
+
+
 def run(tier):
     rep = common.Report("C13", tier, "other",
                         "one obligation per (dispatcher variant, size case, layout case of each operand): the BLAS call issued on that case denotes the product, "
@@ -926,6 +1013,8 @@ def run(tier):
                         rep.ok(key, "B13.gemv", None)
                     else:
                         rep.violated(key, "B13.gemv", "the xGEMV call issued for %s is not the product: %s" % (case, "; ".join(why)[:300]), dict(case=case, reason=why))
+    ns = syrk_rule(rep, wd)
+    rep.need_instances("B13.syrk cases", ns, 8)
     nh = herk_rule(rep, wd)
     rep.need_instances("B13.herk cases", nh, 16)
     nw = wrapper_rule(rep, wd)
